@@ -3,7 +3,8 @@
 # tree as it is; print only the runs that did not exit 0 (false-alarm hunt).  Evidence is not written.
 cd "$(dirname "$0")/.."
 TIER=${3:-quick}
-ids=$(python3-vt -c "import json; print(' '.join(c['property_id'] for c in json.load(open('MANIFEST.json'))['checks']))")
+ids=${IDS:-}
+[ -n "$ids" ] || ids=$(python3-vt -c "import json; print(' '.join(c['property_id'] for c in json.load(open('MANIFEST.json'))['checks']))")
 for seed in $(seq $1 $2); do
   for id in $ids; do
     ( out=$(VERIF_SEED=$seed VERIF_NO_EVIDENCE=1 PYTHONHASHSEED=0 /venv/bin/python -m harness.run $id --tier $TIER 2>&1); rc=$?
